@@ -6,6 +6,7 @@
   configurations `c<index>/<id>v/<id>n…`; lists separated by `;` (`-` = empty).
 -/
 import RaftVerif.Model.Snapshot
+import RaftVerif.Model.Lifecycle
 namespace Raft.Text
 
 def natOr (s : String) (d : Nat := 0) : Nat := (s.toNat?).getD d
